@@ -87,6 +87,11 @@ class TableHooks(D.DomHooks):
         D.DomHooks.__init__(self, model, cls)
         self.own_digest = own_digest       # classes whose digest() is interpreted (the table / list classes under analysis)
 
+    def should_inline(self, fname, node, info):
+        # digest / invoke of the generic macro classes are events of the scenario, however they are reached (by name or through super())
+        return not (info is not None and info.cls is not None and info.cls.fullname in ('plasTeX.Environment', 'plasTeX.Command', 'plasTeX.Macro')
+                    and info.name in ('digest', 'invoke'))
+
     def _classes(self, v):
         if isinstance(v, M.ClassInfo):
             return [v]
@@ -118,9 +123,10 @@ class TableHooks(D.DomHooks):
                 if isinstance(recv, (A.Obj, A.TextObj)):
                     ev.append(('digest', D.label_of(recv)))
                     return A.NONE
-            if attr == 'digest' and len(args) == 2 and text(node.func.value) in ('Environment', 'Command', 'Macro'):
+            via_super = isinstance(node.func.value, ast.Call) and text(node.func.value.func) == 'super' and not node.func.value.args
+            if attr == 'digest' and ((len(args) == 2 and text(node.func.value) in ('Environment', 'Command', 'Macro')) or (via_super and len(args) == 1)):
                 ev.append('base-digest')
-                st = args[1]
+                st = args[-1]
                 state.env['__left_at_base'] = [D.label_of(x) for x in st.items[st.pos:]] if isinstance(st, A.Iter) else None
                 return A.NONE
             if attr == 'paragraphs' and isinstance(node.func.value, ast.Name) and node.func.value.id == 'self':
@@ -129,7 +135,7 @@ class TableHooks(D.DomHooks):
             if attr in ('parse',) and isinstance(node.func.value, ast.Name) and node.func.value.id == 'self':
                 ev.append('parse')
                 return A.NONE
-            if attr == 'invoke' and args and isinstance(args[0], (A.Obj,)) and text(node.func.value) in ('Environment', 'Command', 'Macro'):
+            if attr == 'invoke' and args and ((isinstance(args[0], (A.Obj,)) and text(node.func.value) in ('Environment', 'Command', 'Macro')) or via_super):
                 ev.append('base-invoke')
                 return A.NONE
         # the TeX object of compileColspec
